@@ -454,6 +454,8 @@ use {debug_detail, man_link, new_flag, syscall};
 
 /// Lock `mutex` clearing any poison set.
 fn lock<'a, T>(mutex: &'a std::sync::Mutex<T>) -> std::sync::MutexGuard<'a, T> {
+    #[cfg(a10_verif)]
+    crate::verif::before_lock(mutex);
     match mutex.lock() {
         Ok(guard) => guard,
         Err(err) => {
@@ -466,6 +468,8 @@ fn lock<'a, T>(mutex: &'a std::sync::Mutex<T>) -> std::sync::MutexGuard<'a, T> {
 /// Same as [`lock`], but doesn't block if the mutex is locked.
 #[cfg(any(target_os = "android", target_os = "linux"))]
 fn try_lock<'a, T>(mutex: &'a std::sync::Mutex<T>) -> Option<std::sync::MutexGuard<'a, T>> {
+    #[cfg(a10_verif)]
+    crate::verif::point(crate::verif::Point::TryLock, mutex);
     match mutex.try_lock() {
         Ok(guard) => Some(guard),
         Err(std::sync::TryLockError::Poisoned(err)) => {
@@ -554,7 +558,11 @@ impl PollingState {
     pub(crate) fn set_polling(&self, is_polling: bool) -> bool {
         const _BOOL_CAST_CHECK_TRUE: () = assert!(true as u8 == IS_POLLING);
         const _BOOL_CAST_CHECK_FALSE: () = assert!(false as u8 == NOT_POLLING);
+        #[cfg(a10_verif)]
+        crate::verif::point(crate::verif::Point::SetPollingBefore, &raw const self.0);
         let state = self.0.swap(is_polling as u8 | NOT_AWOKEN, Ordering::AcqRel);
+        #[cfg(a10_verif)]
+        crate::verif::point(crate::verif::Point::SetPollingAfter, &raw const self.0);
         (state & IS_AWOKEN) != 0
     }
 
@@ -563,7 +571,11 @@ impl PollingState {
     /// Returns a boolean indicating if the caller should submit an event to
     /// wake up the polling thread.
     pub(crate) fn wake(&self) -> bool {
+        #[cfg(a10_verif)]
+        crate::verif::point(crate::verif::Point::WakeBefore, &raw const self.0);
         let state = self.0.fetch_or(IS_AWOKEN, Ordering::AcqRel);
+        #[cfg(a10_verif)]
+        crate::verif::point(crate::verif::Point::WakeAfter, &raw const self.0);
         state == (IS_POLLING | NOT_AWOKEN)
     }
 }
